@@ -101,6 +101,10 @@ pub fn scenarios() -> Vec<Scenario> {
             name: "reopen-symlink-handle",
             ops: vec![o(Op::Resolve { path: s("a/link"), nofollow: true }).store(1), o(Op::Reopen { slot: 1, flags: libc::O_RDONLY })],
         },
+        Scenario {
+            name: "reopen-symlink-handle-opath",
+            ops: vec![o(Op::Resolve { path: s("a/link"), nofollow: true }).store(1), o(Op::Reopen { slot: 1, flags: libc::O_PATH })],
+        },
         Scenario { name: "proc-new", ops: vec![o(Op::ProcNew { ctor: ProcCtor::New, store: 0 })] },
         Scenario {
             name: "proc-open-status",
